@@ -289,7 +289,48 @@ def whole_runs(chk):
     else:
         chk.ok()
     creation_histories(chk, files, binary)
+    configuration_orders(chk, root, binary)
     chk.sample({'whole runs': '%d runs of the compiled binary over a directory of %d files (probe with one parameter per line, nested directories): identical reports' % (n, len(files))})
+
+
+def configuration_orders(chk, root, binary):
+    """the same patterns configured in different orders (a name listed twice, next to itself or apart, in one or another letter case):
+    the reports over the same directory must be byte-identical"""
+    import os
+    import subprocess
+    lists = {'optimizations': ['sstore', 'solidity_math', 'increment_decrement', 'sstore'], 'vulnerabilities': ['floating_pragma', 'divide_before_multiply', 'floating_pragma'],
+             'qa': ['constructor_order', 'private_vars_leading_underscore', 'Constructor_Order']}
+    orders = []
+    for k in range(5 if chk.quick else 12):
+        cfg = {}
+        for key, names in lists.items():
+            o = list(names)
+            if k == 1:
+                o = sorted(o, key=str.lower)          # the repeated names next to each other
+            elif k == 2:
+                o = o[::-1]
+            elif k > 2:
+                chk.rng.shuffle(o)
+            cfg[key] = o
+        orders.append(cfg)
+    seen = {}
+    for i, cfg in enumerate(orders):
+        cwd = os.path.join(root, 'cfg%d' % i)
+        os.makedirs(cwd)
+        open(os.path.join(cwd, 'c.toml'), 'w').write('path = "%s"\n' % os.path.join(root, 'proj') + ''.join('%s = [%s]\n' % (k_, ', '.join('"%s"' % n_ for n_ in v_)) for k_, v_ in cfg.items()))
+        p = subprocess.run([binary, '--toml', 'c.toml'], cwd=cwd, stdout=subprocess.PIPE, stderr=subprocess.PIPE)
+        rp = os.path.join(cwd, 'solstat_report.md')
+        text = open(rp, 'rb').read() if p.returncode == 0 and os.path.exists(rp) else ('exit %d: ' % p.returncode).encode() + p.stderr[-200:]
+        seen.setdefault(text, []).append(cfg)
+        chk.states += 1
+    chk.validated += 1
+    if len(seen) > 1:
+        a, b_ = list(seen)[:2]
+        k = next((i for i in range(min(len(a), len(b_))) if a[i] != b_[i]), min(len(a), len(b_)))
+        chk.violation('run:report-depends-on-configuration-order', 'the same patterns configured in different orders give %d different reports; first difference at byte %d: %r / %r; configurations %r and %r' % (
+            len(seen), k, a[max(0, k - 40):k + 30], b_[max(0, k - 40):k + 30], seen[a][0], seen[b_][0]), {'job': 'solstat', 'configurations': [seen[a][0], seen[b_][0]]})
+    else:
+        chk.ok()
 
 
 def creation_histories(chk, files, binary):
@@ -377,7 +418,7 @@ def body(chk):
         sh['vul'].append([(v, [1]) for v in vt])
     chk.bounds = {'findings sets': '%d sets: pairs and triples of patterns, 1-3 files per pattern with symbolic (possibly equal) names and lines' % sum(len(v) for v in sh.values()),
                   'orders': 'all insertion orders of patterns x all discovery orders of files (up to %d per set) x HashMap iteration order fixed / arbitrary' % (6 if chk.quick else 24),
-                  'whole runs': 'the compiled binary 8 (thorough 40) times over one directory of 4 files',
+                  'whole runs': 'the compiled binary 8 (thorough 40) times over one directory of 4 files; the same content created in different orders on tmpfs; the same patterns configured in 5 (12) different orders with repeated names',
                   'outside': 'more than 3 patterns per map with arbitrary iteration order (n! orders); detectors under arbitrary container iteration order are decided in C15'}
     chk.assumptions = ['HashMap contract: iteration order is unspecified (every permutation is a path)', 'slice::sort / sort_by contracts: stable sorted permutation',
                        'native confirmation runs the real generator in several processes (different hash seeds)']
